@@ -1472,3 +1472,313 @@ Proof.
     apply in_or_app. right. apply in_or_app. right. exact Hall.
   - rewrite Ht3, (v_tasks _ _ _ _ Hv2). exact Hall.
 Qed.
+
+(* ------------------------------------------------------------------ every handler runs to its end *)
+
+(* [mono s s']: the task list is untouched and the log only grows *)
+Definition mono (s s' : st) : Prop :=
+  tasks s' = tasks s /\ next s <= next s' /\ exists l, log s' = l ++ log s.
+
+Lemma mono_refl : forall s, mono s s.
+Proof. intros. split; [|split]; auto. exists []. reflexivity. Qed.
+Lemma mono_trans : forall s s1 s2, mono s s1 -> mono s1 s2 -> mono s s2.
+Proof.
+  intros s s1 s2 (a1 & a2 & l1 & a3) (b1 & b2 & l2 & b3). split; [congruence|]. split; [lia|].
+  exists (l2 ++ l1). rewrite b3, a3. now rewrite app_assoc.
+Qed.
+Lemma mono_vop : forall e l s s', vop e l s s' -> mono s s'.
+Proof.
+  intros e l s s' [f p w t]. split; auto. split; [apply (f_next _ _ _ _ f)|].
+  exists l. apply (f_log _ _ _ _ f).
+Qed.
+Lemma mono_ext : forall l s s', ext l s s' -> mono s s'.
+Proof. intros l s s' [a b c d e f]. split; auto. split; auto. exists l. auto. Qed.
+Lemma mono_fr : forall e l s s', fr e l s s' -> tasks s' = tasks s -> mono s s'.
+Proof. intros e l s s' f Ht. split; auto. split; [apply (f_next _ _ _ _ f)|]. exists l. apply (f_log _ _ _ _ f). Qed.
+Lemma mono_in : forall s s' x, mono s s' -> In x (log s) -> In x (log s').
+Proof. intros s s' x (_ & _ & l & Hl) H. rewrite Hl. apply in_or_app. auto. Qed.
+
+Lemma task_stop_shape : forall p e s, e < next s ->
+  tasks (task_stop p e s) = remove_nth p (tasks s) /\
+  (forall x, In x (log s) -> In x (log (task_stop p e s))).
+Proof.
+  intros p e s He. unfold task_stop.
+  set (s1 := set_tasks (remove_nth p (tasks s)) (set_wait e (pred (waiting s e)) s)).
+  assert (He1 : e < next s1) by exact He.
+  destruct (Nat.eqb (waiting s1 e) 0).
+  - destruct (inform_vop true e s1 He1) as (li & Hv & _ & _).
+    pose proof (mono_vop _ _ _ _ Hv) as M1.
+    assert (He2 : e < next (inform true e s1)) by (destruct M1 as (_ & ? & _); lia).
+    destruct (event_done_sum e false (inform true e s1) He2 ltac:(discriminate)) as (F & _ & _ & Ht & _).
+    pose proof (mono_fr _ _ _ _ F Ht) as M2.
+    pose proof (mono_trans _ _ _ M1 M2) as M. split.
+    + destruct M as (-> & _). reflexivity.
+    + intros x Hx. apply (mono_in s1); auto.
+  - split; auto.
+Qed.
+
+Lemma task_raise_shape : forall p e s, e < next s ->
+  tasks (task_raise p e s) = remove_nth p (tasks s) /\
+  (forall x, In x (log s) -> In x (log (task_raise p e s))).
+Proof.
+  intros p e s He. unfold task_raise.
+  set (s1 := set_tasks (remove_nth p (tasks s)) s).
+  assert (He1 : e < next s1) by exact He.
+  destruct (set_value_vop e PErr s1 He1 eq_refl) as (li1 & Hv2 & _ & _).
+  pose proof (mono_vop _ _ _ _ Hv2) as M2.
+  set (s2 := set_value e PErr s1) in *.
+  assert (He2 : e < next s2) by (destruct M2 as (_ & ? & _); lia).
+  set (s3 := set_errors e s2).
+  assert (M3 : mono s2 s3) by (split; [|split]; auto; exists []; reflexivity).
+  assert (He3 : e < next s3) by exact He2.
+  destruct (inform_vop true e s3 He3) as (li2 & Hv4 & _ & _).
+  pose proof (mono_vop _ _ _ _ Hv4) as M4.
+  set (s4 := inform true e s3) in *.
+  assert (He4 : e < next s4) by (destruct M4 as (_ & ? & _); lia).
+  pose proof (mono_ext _ _ _ (ext_raise_feedback e s4)) as M5.
+  set (s5 := raise_feedback e s4) in *.
+  assert (He5 : e < next s5) by (destruct M5 as (_ & ? & _); lia).
+  set (s6 := set_wait e (pred (waiting s5 e)) s5).
+  assert (M6 : mono s5 s6) by (split; [|split]; auto; exists []; reflexivity).
+  assert (He6 : e < next s6) by exact He5.
+  assert (Herr : true = true -> verrors (val s6 e) = true).
+  { intros _. change (val s6 e) with (val s5 e). unfold s5.
+    rewrite (ext_val _ _ _ e (ext_raise_feedback e s4) He4). unfold s4.
+    destruct (inform_vop true e s3 He3) as (? & _ & _ & ->). unfold s3. rewrite val_set_errors. reflexivity. }
+  destruct (event_done_sum e true s6 He6 Herr) as (F & _ & _ & Ht & _).
+  pose proof (mono_fr _ _ _ _ F Ht) as M7.
+  pose proof (mono_trans _ _ _ M2 (mono_trans _ _ _ M3 (mono_trans _ _ _ M4
+               (mono_trans _ _ _ M5 (mono_trans _ _ _ M6 M7))))) as M.
+  split.
+  - destruct M as (-> & _). reflexivity.
+  - intros x Hx. apply (mono_in s1); auto.
+Qed.
+
+Lemma in_replace_nth_other : forall (x t0 v : task) p ts,
+  nth_error ts p = Some t0 -> In x ts -> x <> t0 -> In x (replace_nth p v ts).
+Proof.
+  intros x t0 v p ts. revert p. induction ts as [|t ts IH]; intros p Hn Hin Hne; destruct p; simpl in *;
+    try discriminate.
+  - inversion Hn; subst. destruct Hin; [congruence | auto].
+  - destruct Hin; auto; right; eapply IH; eauto.
+Qed.
+Lemma in_replace_nth_self : forall (t0 v : task) p ts,
+  nth_error ts p = Some t0 -> In v (replace_nth p v ts).
+Proof.
+  intros t0 v p ts. revert p. induction ts as [|t ts IH]; intros p Hn; destruct p; simpl in *;
+    try discriminate; auto; right; eapply IH; eauto.
+Qed.
+Lemma in_remove_nth_other : forall (x t0 : task) p ts,
+  nth_error ts p = Some t0 -> In x ts -> x <> t0 -> In x (remove_nth p ts).
+Proof.
+  intros x t0 p ts. revert p. induction ts as [|t ts IH]; intros p Hn Hin Hne; destruct p; simpl in *;
+    try discriminate.
+  - inversion Hn; subst. destruct Hin; [congruence | auto].
+  - destruct Hin; auto; right; eapply IH; eauto.
+Qed.
+
+Lemma step_task_shape : forall p t0 s ys lk gr,
+  nth_error (tasks s) p = Some t0 -> tev t0 < next s ->
+  nth_error (ev_hs (spec s (tev t0))) (thd t0) = Some (HG ys lk gr) ->
+  (forall t', In t' (tasks s) -> t' <> t0 -> In t' (tasks (step_task p s))) /\
+  (forall x, In x (log s) -> In x (log (step_task p s))) /\
+  In (LG (tev t0) (thd t0) (tk t0)) (log (step_task p s)) /\
+  (nth_error ys (tk t0) <> None ->
+   In {| tev := tev t0; thd := thd t0; tk := S (tk t0) |} (tasks (step_task p s))).
+Proof.
+  intros p t0 s ys lk gr Hn He Hh. unfold step_task. rewrite Hn, Hh.
+  set (e := tev t0) in *.
+  destruct (nth_error ys (tk t0)) as [[kids y]|] eqn:Hy.
+  - destruct (enter_vop e (LG e (thd t0) (tk t0)) kids s He eq_refl) as (lk' & Hv1 & _ & _ & Hn1).
+    set (s2 := fire_all kids (add_log (LG e (thd t0) (tk t0)) s)) in *.
+    pose proof (mono_vop _ _ _ _ Hv1) as M1.
+    assert (Hin2 : In (LG e (thd t0) (tk t0)) (log s2)).
+    { rewrite (f_log _ _ _ _ (v_fr _ _ _ _ Hv1)). apply in_or_app. left. apply in_or_app. right. left. auto. }
+    assert (M2 : mono s2 (if is_none y then s2 else set_value e y s2)).
+    { destruct (is_none y) eqn:Hnone; [apply mono_refl|].
+      destruct (set_value_vop e y s2 ltac:(lia) Hnone) as (li & Hv & _ & _). eapply mono_vop; eauto. }
+    set (s3 := if is_none y then s2 else set_value e y s2) in *.
+    pose proof (mono_trans _ _ _ M1 M2) as M. destruct M as (Ht & _ & l & Hl).
+    simpl. rewrite Ht. split; [|split; [|split]].
+    + intros t' Hin Hne. eapply in_replace_nth_other; eauto.
+    + intros x Hx. rewrite Hl. apply in_or_app. auto.
+    + apply (mono_in s2); auto.
+    + intros _. eapply in_replace_nth_self; eauto.
+  - destruct (enter_vop e (LG e (thd t0) (tk t0)) lk s He eq_refl) as (lk' & Hv1 & _ & _ & Hn1).
+    set (s2 := fire_all lk (add_log (LG e (thd t0) (tk t0)) s)) in *.
+    pose proof (mono_vop _ _ _ _ Hv1) as M1.
+    assert (Hin2 : In (LG e (thd t0) (tk t0)) (log s2)).
+    { rewrite (f_log _ _ _ _ (v_fr _ _ _ _ Hv1)). apply in_or_app. left. apply in_or_app. right. left. auto. }
+    assert (He2 : e < next s2) by lia.
+    assert (Hsh : tasks (if gr then task_raise p e s2 else task_stop p e s2) = remove_nth p (tasks s2) /\
+                  (forall x, In x (log s2) -> In x (log (if gr then task_raise p e s2 else task_stop p e s2)))).
+    { destruct gr; [apply task_raise_shape | apply task_stop_shape]; auto. }
+    destruct Hsh as (Ht & Hl). destruct M1 as (Ht1 & _ & l1 & Hl1).
+    assert (Hgoal : forall s', tasks s' = remove_nth p (tasks s2) ->
+              (forall x, In x (log s2) -> In x (log s')) ->
+              (forall t', In t' (tasks s) -> t' <> t0 -> In t' (tasks s')) /\
+              (forall x, In x (log s) -> In x (log s')) /\ In (LG e (thd t0) (tk t0)) (log s') /\
+              (@None (list ev * pyval) <> None -> In {| tev := e; thd := thd t0; tk := S (tk t0) |} (tasks s'))).
+    { intros s' Ht' Hl'. split; [|split; [|split]].
+      - intros t' Hin Hne. rewrite Ht', Ht1. eapply in_remove_nth_other; eauto.
+      - intros x Hx. apply Hl'. rewrite Hl1. apply in_or_app. auto.
+      - apply Hl'. auto.
+      - intros H. congruence. }
+    destruct gr; apply Hgoal; auto.
+Qed.
+
+Lemma dispatch_shape : forall e s, e < next s ->
+  (forall t, In t (tasks s) -> In t (tasks (dispatch e s))) /\
+  (forall x, In x (log s) -> In x (log (dispatch e s))).
+Proof.
+  intros e s He. unfold dispatch. destruct (kind s e) as [|k x a o] eqn:Hk.
+  - set (s0 := set_phase e PActive s).
+    assert (He0 : e < next s0) by exact He.
+    destruct (run_handlers_sum e (ev_hs (spec s0 e)) 0 false s0 [] He0 eq_refl eq_refl)
+      as (l1 & t1 & Hd1 & Herr1).
+    destruct (run_handlers e 0 (ev_hs (spec s0 e)) false s0) as [s1 err] eqn:Hrun. simpl fst in *. simpl snd in *.
+    assert (He1 : e < next s1) by (pose proof (f_next _ _ _ _ (d_fr _ _ _ _ _ Hd1)); lia).
+    set (xs := map (LDU e) (observers true (ev_both (spec s1 e)))).
+    assert (Hxs : Forall (about e) xs /\ Forall silent xs /\ Forall nosucc xs).
+    { unfold xs, observers. destruct (ev_both (spec s1 e)); simpl; repeat split; repeat constructor. }
+    destruct Hxs as (x1 & x2 & x3).
+    destruct (log_all_vop e xs s1 He1 x1 x2 x3) as (l2 & Hv2 & Hs2 & Hn2 & Hval2).
+    set (s2 := log_all xs s1) in *.
+    pose proof (mono_vop _ _ _ _ Hv2) as M2.
+    assert (He2 : e < next s2) by (destruct M2 as (_ & ? & _); lia).
+    assert (Herr2 : err = true -> verrors (val s2 e) = true).
+    { intros E. rewrite Hval2. apply Herr1; auto. discriminate. }
+    destruct (event_done_sum e err s2 He2 Herr2) as (Hf3 & _ & _ & Ht3 & _).
+    pose proof (mono_trans _ _ _ M2 (mono_fr _ _ _ _ Hf3 Ht3)) as (Ht & _ & l & Hl).
+    split.
+    + intros t Hin. rewrite Ht, (d_tasks _ _ _ _ _ Hd1). apply in_or_app. left. exact Hin.
+    + intros x Hx. rewrite Hl, (f_log _ _ _ _ (d_fr _ _ _ _ _ Hd1)).
+      apply in_or_app. right. apply in_or_app. right. exact Hx.
+  - set (xs := map (LDD k x) (observers a o)).
+    assert (Hxs : Forall (about e) xs /\ Forall silent xs /\ Forall nosucc xs).
+    { unfold xs, observers. destruct a, o; simpl; repeat split; repeat constructor. }
+    destruct Hxs as (x1 & x2 & x3).
+    destruct (log_all_vop e xs s He x1 x2 x3) as (l & Hv & _ & _ & _).
+    destruct (mono_vop _ _ _ _ Hv) as (Ht & _ & l' & Hl). simpl. rewrite Ht, Hl. split; auto.
+    intros y Hy. apply in_or_app. auto.
+Qed.
+
+(* handler i of event d (script h): it has been invoked (plain) / it is a registered task that has
+   run its first segments, or has run all its segments (generator) *)
+Definition hdone (s : st) (d i : nat) (h : hdl) : Prop :=
+  match h with
+  | HP _ _ => In (LH d i) (log s)
+  | HG ys _ _ =>
+      (exists t, In t (tasks s) /\ tev t = d /\ thd t = i /\ tk t <= length ys /\
+                 forall k, k < tk t -> In (LG d i k) (log s))
+      \/ (forall k, k <= length ys -> In (LG d i k) (log s))
+  end.
+
+Definition HInv (s : st) : Prop :=
+  forall d i h, d < next s -> kind s d = KUser -> phase s d <> PQueued ->
+    nth_error (ev_hs (spec s d)) i = Some h -> hdone s d i h.
+
+Lemma task_eq_dec : forall a b : task, {a = b} + {a <> b}.
+Proof. decide equality; apply Nat.eq_dec. Qed.
+
+Lemma hdone_mono : forall s s' d i h,
+  (forall t, In t (tasks s) -> tev t = d -> In t (tasks s')) ->
+  (forall x, In x (log s) -> In x (log s')) -> hdone s d i h -> hdone s' d i h.
+Proof.
+  intros s s' d i h Ht Hl H. destruct h as [|ys lk gr]; simpl in *; auto.
+  destruct H as [(t & Hin & Hd & Hi & Hk & Hlg)|H]; [left | right; auto].
+  exists t. repeat split; auto.
+Qed.
+
+Lemma hinv_start : forall roots, HInv (start roots).
+Proof.
+  intros roots d i h Hd Hk Hp. exfalso. apply Hp. unfold start in *.
+  destruct (ext_fire_all roots init) as (l & Hx & _).
+  apply (x_new _ _ _ Hx d). simpl. lia.
+Qed.
+
+Lemma hinv_step : forall lb s, Inv s -> HInv s -> HInv (step lb s).
+Proof.
+  intros lb s HI HH. pose proof HI as [q1 q2 q3 t w a lbd vc sc sl]. destruct lb as [|p]; simpl.
+  - destruct (queue s) as [|e q] eqn:Hq; auto.
+    assert (He : e < next s /\ phase s e = PQueued) by (apply q1; simpl; auto).
+    destruct He as (He & Hpe).
+    set (s0 := set_queue q s).
+    assert (Hss : ssum e s0 (dispatch e s0)).
+    { assert (Hz : ctasks e (tasks s) = 0).
+      { apply ctasks_zero. intros t0 Hin Heq. destruct (t t0 Hin) as (_ & Hp). congruence. }
+      destruct (kind s e) eqn:Hk.
+      - apply dispatch_user_ssum; auto. simpl. auto.
+      - eapply dispatch_der_ssum; simpl; eauto. rewrite (w e He). exact Hz. }
+    destruct Hss as (l0 & b & Hfr & _).
+    destruct (dispatch_shape e s0 He) as (Htk & Hlg).
+    intros d i h Hd Hk Hp Hnth.
+    destruct (Nat.lt_ge_cases d (next s)) as [Hlt|Hge].
+    2:{ exfalso. apply Hp. apply (f_new _ _ _ _ Hfr d). simpl. lia. }
+    destruct (f_spec _ _ _ _ Hfr d Hlt) as (Hsp & Hkd). simpl in Hsp, Hkd.
+    rewrite Hsp in Hnth. rewrite Hkd in Hk.
+    destruct (Nat.eq_dec d e) as [->|Hne].
+    + pose proof (dispatch_runs_all s0 e i h He Hk Hnth) as Hall.
+      destruct h as [|ys lk gr]; simpl; auto. left.
+      eexists. split; [exact Hall|]. simpl. repeat split; auto; try lia; intros k Hk0; lia.
+    + destruct (f_old _ _ _ _ Hfr d Hlt Hne) as (_ & _ & Hph). simpl in Hph.
+      apply (hdone_mono s0); auto. apply (HH d i h); auto. congruence.
+  - destruct (nth_error (tasks s) p) as [t0|] eqn:Hn.
+    2:{ unfold step_task. now rewrite Hn. }
+    destruct (t t0 (nth_error_In _ _ Hn)) as (He & Hp0).
+    destruct (step_task_ssum p t0 s Hn He Hp0 (w _ He)) as [-> | Hs]; auto.
+    destruct Hs as (l0 & b & Hfr & _).
+    destruct (nth_error (ev_hs (spec s (tev t0))) (thd t0)) as [[kids r | ys lk gr]|] eqn:Hh;
+      try (unfold step_task; rewrite Hn, Hh; exact HH).
+    destruct (step_task_shape p t0 s ys lk gr Hn He Hh) as (B2 & Hlg & Hnew & Hnext).
+    set (s' := step_task p s) in *.
+    intros d i h Hd Hk Hp Hnth.
+    destruct (Nat.lt_ge_cases d (next s)) as [Hlt|Hge].
+    2:{ exfalso. apply Hp. apply (f_new _ _ _ _ Hfr d). lia. }
+    destruct (f_spec _ _ _ _ Hfr d Hlt) as (Hsp & Hkd).
+    rewrite Hsp in Hnth. rewrite Hkd in Hk.
+    destruct (Nat.eq_dec d (tev t0)) as [->|Hne].
+    + assert (Hold : hdone s (tev t0) i h) by (apply HH; auto; congruence).
+      destruct h as [|ys' lk' gr']; [simpl in *; auto|].
+      destruct (Nat.eq_dec i (thd t0)) as [->|Hni].
+      * rewrite Hh in Hnth. inversion Hnth; subst ys' lk' gr'.
+        simpl in Hold. destruct Hold as [(t1 & Hin & Hd1 & Hi1 & Hk1 & Hlg1)|Hall].
+        -- destruct (task_eq_dec t1 t0) as [->|Hnt].
+           ++ destruct (nth_error ys (tk t0)) as [seg|] eqn:Hy.
+              ** left. eexists. split; [apply Hnext; discriminate|]. simpl.
+                 repeat split; auto.
+                 --- assert (tk t0 < length ys) by (apply nth_error_Some; congruence). lia.
+                 --- intros k Hk0. destruct (Nat.eq_dec k (tk t0)) as [->|]; auto. apply Hlg, Hlg1. lia.
+              ** right. apply nth_error_None in Hy. intros k Hk0.
+                 destruct (Nat.eq_dec k (tk t0)) as [->|]; auto. apply Hlg, Hlg1. lia.
+           ++ left. exists t1. repeat split; auto.
+        -- right. auto.
+      * simpl in Hold. simpl. destruct Hold as [(t1 & Hin & Hd1 & Hi1 & Hk1 & Hlg1)|Hall].
+        -- left. exists t1. repeat split; auto. apply B2; auto. intros ->. congruence.
+        -- right. auto.
+    + destruct (f_old _ _ _ _ Hfr d Hlt Hne) as (_ & _ & Hph).
+      apply (hdone_mono s); auto.
+      * intros t1 Hin Ht1. apply B2; auto. intros ->. congruence.
+      * apply (HH d i h); auto. congruence.
+Qed.
+
+Lemma both_exec : forall ls s, Inv s -> HInv s -> Inv (exec ls s) /\ HInv (exec ls s).
+Proof.
+  induction ls as [|lb ls IH]; intros s HI HH; simpl; auto.
+  apply IH; [apply inv_step | apply hinv_step]; auto.
+Qed.
+
+(* when an event has passed the _eventDone gate, every one of its handlers has run to its end:
+   every plain handler was invoked, every segment of every generator handler (up to and including the
+   one that returns or raises) was entered — whichever handlers raised *)
+Theorem finished_complete : forall s e i h,
+  reachable s -> e < next s -> kind s e = KUser -> phase s e = PFin ->
+  nth_error (ev_hs (spec s e)) i = Some h -> handler_finished (log s) e i h.
+Proof.
+  intros s e i h (roots & ls & ->) He Hk Hp Hnth.
+  destruct (both_exec ls (start roots) (inv_start roots) (hinv_start roots)) as (HI & HH).
+  pose proof (HH e i h He Hk ltac:(congruence) Hnth) as Hd.
+  destruct h as [|ys lk gr]; simpl in *; auto.
+  destruct Hd as [(t & Hin & Ht & _)|Hall]; auto.
+  exfalso. destruct (i_t _ _ HI t Hin) as (_ & Hpa). rewrite Ht in Hpa. congruence.
+Qed.
